@@ -8,6 +8,8 @@ package sim
 import (
 	"context"
 	"fmt"
+	"os"
+	"path/filepath"
 	"reflect"
 	"runtime"
 	"sort"
@@ -799,6 +801,11 @@ func closeUniDB(c *unistore.RPCClient) {
 	db := field(store, "db")
 	if m := db.MethodByName("Close"); m.IsValid() {
 		m.Call(nil)
+	}
+	// closing the DB writes its files back into the directory that unistore's Close has just removed (17 MB per
+	// instance, which filled the disk over a long run): remove it again
+	if path := field(reflect.ValueOf(c), "path").String(); strings.HasPrefix(path, filepath.Join(os.TempDir(), "tidb-unistore-temp")) {
+		_ = os.RemoveAll(path)
 	}
 }
 
